@@ -127,7 +127,9 @@ def run_case(case, tier):
             if phase_of[v[0]] in skip:
                 fail("skipped_phase_reported", {"violation": v}, v[0])
                 break
-        rl.clear_violations()
+        # the gated run uses a freshly parsed file, as a separate invocation of the tool would (re-using the object of the
+        # all-phases run would let attributes written during that analysis leak into this one - C06's subject, not C13's)
+        f, rl, c, cla = _mk(lines, style, conf2)
         rl.check_rules(bAllPhases=False, lSkipPhase=skip_eff)
         gv = vsgapi.violations_of(rl)
         exp, stop = gating.gated(allv, phase_of, is_err, skip)
